@@ -57,6 +57,10 @@ HYGIENE = [
 # uses of one derived form that PRINT alike but are different forms: a string / a character against the identifier of the same
 # spelling in the same position (a form is its data, not its printed text) - each use means what ITS data say, in either order
 TWIN_PROGRAMS = [
+    (["(case (* 1.0 2) ((2) 'exact) ((2.0) 'inexact) (else 'none))", "(case (+ 1 1) ((2.0) 'inexact) ((2) 'exact) (else 'none))",
+      "(case (list 1 2) (((1 2)) 'hit) (else 'miss))", "(case 1/2 ((0.5) 'inexact) ((1/2) 'exact) (else 'none))",
+      "(define (kind v) (case v ((1.0) 'real) ((1) 'int) (else 'other)))", "(list (kind 1) (kind 1.0) (kind (/ 2 2)) (kind (/ 2.0 2)))"],
+     ["V y:inexact", "V y:exact", "V y:miss", "V y:exact", "N", "V (y:int y:real y:int y:real)"]),
     (["(define done #f)", "(or done 7)", '(or "done" 7)', "(or done 7)"], ["N", "V i:7", 'V s:"done"', "V i:7"]),
     (["(define done #f)", '(or "done" 7)', "(or done 7)"], ["N", 'V s:"done"', "V i:7"]),
     (["(define (vs? c) (case c ((a e) 1) (else 0)))", "(define (vc? c) (case c ((#\\a #\\e) 1) (else 0)))",
